@@ -57,6 +57,23 @@ def extract(ctx, modname, fname, atomic=ATOMIC, depth=3):
     return ref, ex, unwrap_delegation(ex.function(ref))
 
 
+def is_string_form(rt, tup):
+    """rt is the string form of the tuple term `tup`: urlunsplit(tup), its [2:] slice (the leading '//' of a
+    scheme-less url), or a choice between the two decided by tests on urlunsplit(tup) / the function's options"""
+    def un(x):
+        return x[0] == "call" and x[1] == "urllib.parse.urlunsplit" and len(x[2]) == 1 and x[2][0] == tup
+
+    def form(x):
+        if un(x):
+            return True
+        if x[0] == "slice" and un(x[1]) and x[2] == ("const", 2) and x[3] in (("const", None), None) and (len(x) < 5 or x[4] in (("const", None), None)):
+            return True
+        if x[0] == "phi":
+            return form(x[2]) and form(x[3]) and all(un(y) for y in P.subterms(x[1]) if y[0] == "call" and y[1] == "urllib.parse.urlunsplit")
+        return False
+    return form(rt)
+
+
 def body_function(repo, ref):
     """the function whose body does the work: `ref` itself, or -- when ref only packs its arguments and returns
     <module-level function>(...) -- that function (followed up to 3 times).  For rules that read statements."""
